@@ -145,6 +145,42 @@ func (g *gen) flagged() {
 			cond(match(y), &Stmt{Op: "deco", Deco: d, Then: []*Stmt{inc(b)}}),
 			{Op: "add", M: a, Ty: TInt, E: cap1(x, TInt)}}}}
 		p.ExtraLines = []string{x.P.Word + " 5", x.P.Word + " 7 " + y.P.Word}
+	case FlagCaprefShape, FlagCaprefUnder:
+		// counter c2 by k;  text|gauge v3;  /x (G)/ { c2[$1]++  v3 = $1  a0++ }  b1++ elsewhere
+		// G from the region where a purely syntactic inference leaves the
+		// reference: the reference types $1 by the group's language
+		region := RegionShape
+		if g.cfg.Flag == FlagCaprefUnder {
+			region = RegionUnder
+		}
+		g.cfg.RichGroups = true
+		t := g.pickTop(region)
+		g.npat++
+		x := &Pattern{Word: wordOf(g.npat)}
+		x.Text = x.Word + " (" + t.body + ")"
+		x.Parts = []PatPart{{Lit: x.Text}}
+		g.setGroups(x, []top{t})
+		p.patterns = append(p.patterns, x)
+		pn := &PatNode{P: x}
+		ty := x.Groups[0].Ty
+		c2 := g.metric("c2", "counter", TInt, "k")
+		var v3 *Metric
+		if ty == TStr {
+			v3 = g.metric("v3", "text", TStr)
+		} else {
+			v3 = g.metric("v3", "gauge", ty)
+		}
+		key := cap1(pn, ty)
+		if ty != TStr {
+			key = &Expr{Op: "conv", From: ty, Ty: TStr, A: key}
+		}
+		p.Body = []*Stmt{cond(match(pn), &Stmt{Op: "inc", M: c2, Keys: []*Expr{key}, Ty: TInt},
+			&Stmt{Op: "set", M: v3, Ty: ty, E: cap1(pn, ty)}, inc(a)), cond(match(g.plainPat()), inc(b))}
+		for i, v := range x.Groups[0].Vals {
+			if i < 4 {
+				p.ExtraLines = append(p.ExtraLines, x.Word+" "+v)
+			}
+		}
 	default:
 		panic("gen: unknown flag " + g.cfg.Flag)
 	}
